@@ -140,3 +140,71 @@ Proof.
   { vm_compute in E. injection E as E. subst st. vm_compute. repeat split; reflexivity. }
   destruct X as (X1 & X2 & X3 & X4). repeat split; auto. apply stuck_b_sound. exact X4.
 Qed.
+
+(* ---------- without tear-down a receiver-side error can stop everything ---------- *)
+(* W = 1, every capacity 0, three requested files and a directory whose NotifyHashed fails,
+   two more entries behind it.  File 0 is with the worker (waiting for the stream mutex that
+   the walker holds), REQ 1 has been received and the request loop sits in queue(), the writer
+   of file 2 is inside SendMsg(REQ) holding the receiver's stream mutex, the receive loop is
+   parked in dynamicWalker.update.  The callback error closes the walker: the receive loop
+   returns, the goroutine that has to send ERR waits for the mutex, the walker is inside
+   SendMsg(end of walk) with nobody receiving.  Neither call has returned, so nobody tears the
+   stream down; no goroutine can move.  (3 outstanding requests > P + W + cap(r->s) = 1.) *)
+Definition nt_params : params :=
+  {| p_W := 1; p_P := 0; p_C := 0; p_C2 := 0; p_capSR := 0; p_capRS := 0;
+     p_entries := [ {| e_file := true; e_chunks := 1; e_kind := ENeed |};
+                    {| e_file := true; e_chunks := 1; e_kind := ENeed |};
+                    {| e_file := true; e_chunks := 1; e_kind := ENeed |};
+                    {| e_file := false; e_chunks := 0; e_kind := EMeta |};
+                    {| e_file := false; e_chunks := 0; e_kind := ESame |};
+                    {| e_file := false; e_chunks := 0; e_kind := ESame |} ];
+     p_old_queue := false |}.
+Definition nt_trace : list label :=
+  [LSWalk; LSWalk; LSWalk; LSWalk; LSWalk; LRecvLoop; LRecvLoop;
+   LRecvLoop; LSWalk; LSWalk; LSWalk; LRecvLoop; LRecvLoop; LFill;
+   LFill; LRecvLoop; LSWalk; LSWalk; LSWalk; LRecvLoop; LRecvLoop;
+   LFill; LDiff; LDiff; LFill; LRecvLoop; LSWalk; LSWalk; LSWalk;
+   LRecvLoop; LRecvLoop; LFill; LDiff; LDiff; LFill; LRecvLoop; LSWalk;
+   LSWalk; LSWalk; LRecvLoop; LRecvLoop; LFill; LDiff; LDiff; LFill;
+   LRecvLoop; LSWalk; LSWalk; LSWalk; LRecvLoop; LRecvLoop; LFill;
+   LDiff; LWriter 0; LWriter 0; LWriter 1; LWriter 2; LReq;
+   LWriter 0; LWriter 1; LReq; LReq; LReq; LWriter 1;
+   LWriter 2; LReq; LWorker 0; LWorker 0; LWorker 0;
+   LWorker 0; LDiffCbErr; LFillCtx; LFill; LFill; LRecvLoopClosed;
+   LWriterCtx 0; LWriterCtx 1; LDiffOuter].
+
+Definition prog_stuck_b (p : params) (st : state) : bool :=
+  forallb (fun l => is_env l || is_none (step p st l)) (all_labels st).
+
+Lemma prog_stuck_b_sound : forall p st, prog_stuck_b p st = true ->
+  forall l, is_env l = false -> step p st l = None.
+Proof.
+  intros p st H l E. destruct (step p st l) eqn:S; auto. exfalso.
+  unfold prog_stuck_b in H. rewrite forallb_forall in H.
+  specialize (H l (step_in_all_labels _ _ _ _ S)). rewrite E, S in H. discriminate.
+Qed.
+
+Lemma no_teardown_deadlock_proof :
+  exists p ls st,
+    p_W p >= 1 /\ p_old_queue p = false /\ run p (init p) ls = Some st /\
+    filter is_env ls = [LDiffCbErr] /\
+    torn_down st = false /\ s_broken st = false /\ r_broken st = false /\
+    send_ret st = None /\ recv_ret st = None /\ final st = false /\
+    length (reqs st) + length (filter (fun w => match wr_pc w with WR_Send => true | _ => false end) (wrs st))
+      > p_P p + p_W p + p_capRS p /\
+    (forall l, is_env l = false -> step p st l = None).
+Proof.
+  exists nt_params, nt_trace.
+  destruct (run nt_params (init nt_params) nt_trace) as [st|] eqn:E.
+  2:{ vm_compute in E. discriminate E. }
+  exists st. split; [cbn; lia|]. split; [reflexivity|]. split; [reflexivity|]. split; [reflexivity|].
+  assert (X: torn_down st = false /\ s_broken st = false /\ r_broken st = false /\
+             send_ret st = None /\ recv_ret st = None /\ final st = false /\
+             (p_P nt_params + p_W nt_params + p_capRS nt_params <?
+              length (reqs st) + length (filter (fun w => match wr_pc w with WR_Send => true | _ => false end) (wrs st))) = true /\
+             prog_stuck_b nt_params st = true).
+  { vm_compute in E. injection E as E. subst st. vm_compute. repeat split; reflexivity. }
+  destruct X as (X1 & X2 & X3 & X4 & X5 & X6 & X7 & X8). repeat split; auto.
+  - apply Nat.ltb_lt in X7. exact X7.
+  - apply prog_stuck_b_sound. exact X8.
+Qed.
